@@ -151,8 +151,8 @@ def run(ck):
         recs = [h for h in out if "i" in h]
         rounds = [h for h in out if "i" not in h]        # sweeps of the same scripts over fresh keys
     else:
-        nh = 240 if ck.thorough else 60
-        out = ck.drive(b, ["all", str(nh), "4", "3", "20000" if ck.thorough else "5000"], timeout=1500)
+        nh = 600 if ck.thorough else 60
+        out = ck.drive(b, ["all", str(nh), "4", "3", "60000" if ck.thorough else "5000"], timeout=1500)
         recs = [h for h in out if str(h.get("kind", "")).startswith("random-")]
         rounds = [h for h in out if not str(h.get("kind", "")).startswith("random-")]
     stats = [h for h in rounds if "stat" in h]
@@ -188,6 +188,7 @@ def run(ck):
                          % (h["backend"], bad[0].get("r"), json.dumps(h["scripts"])[:800]), _rep(h))
         else:
             todo.append(h)
+    _control(ck)
     rejected = 0
     for lo in range(0, len(todo), BATCH):
         chunk = todo[lo:lo + BATCH]
@@ -231,6 +232,33 @@ def run(ck):
                        "schedules are whatever the Go scheduler produces on this machine: absence of a violation is evidence, not proof"]
 
 
+def _control(ck):
+    """control of the validator itself: it must accept a legal history with every kind of conflict reply and reject illegal ones"""
+    def hist(*calls):      # calls: (t, op, ret-event fields, invocation stamp, return stamp)
+        evs = []
+        for t, op, ret, a, b in calls:
+            evs.append({"seq": a, "e": "inv", "t": t, "op": op, "arg": ret.pop("arg", 0)})
+            evs.append(dict({"seq": b, "e": "ret", "t": t, "tok": 0}, **ret))
+        return {"threads": 2, "events": evs, "backend": "control", "kind": "control", "scripts": []}
+    A = lambda c: {"m": "append", "k": 1, "c": c}
+    good = hist((1, A("c1"), {"r": "prefix-conflict"}, 1, 3), (2, A("c1"), {"r": "ok"}, 2, 4),
+                (1, {"m": "put", "k": 2, "v": "v1"}, {"r": "simple-conflict"}, 5, 8), (2, {"m": "put", "k": 2, "v": "v2"}, {"r": "ok"}, 6, 7),
+                (1, {"m": "get", "k": 2}, {"r": "ok", "v": "v2"}, 9, 10),
+                (1, {"m": "acquire", "k": 1}, {"r": "ok", "tok": 111}, 11, 14), (2, {"m": "acquire", "k": 1}, {"r": "lease-conflict"}, 12, 13),
+                (2, {"m": "release", "k": 1}, {"r": "ok", "arg": 111}, 15, 16), (2, {"m": "lget", "k": 1}, {"r": "ok"}, 17, 18),
+                (1, {"m": "list", "k": 1}, {"r": "ok", "l": ["c1"]}, 19, 20))
+    bad = [hist((1, A("c1"), {"r": "ok"}, 1, 3), (2, A("c1"), {"r": "ok"}, 2, 4)),                                        # appended twice
+           hist((1, {"m": "acquire", "k": 1}, {"r": "ok", "tok": 5}, 1, 3), (2, {"m": "acquire", "k": 1}, {"r": "ok", "tok": 6}, 2, 4)),   # acquired twice
+           hist((1, {"m": "put", "k": 1, "v": "v1"}, {"r": "ok"}, 1, 2), (2, {"m": "get", "k": 1}, {"r": "ok", "v": ""}, 3, 4)),            # acknowledged put missed
+           hist((1, {"m": "put", "k": 1, "v": "v1"}, {"r": "simple-conflict"}, 1, 2), (2, {"m": "put", "k": 1, "v": "v2"}, {"r": "ok"}, 3, 4))]  # conflict without overlap
+    i = ck.seed % len(bad) if not ck.thorough else None
+    for j, h in enumerate(bad):
+        if i is None or i == j:                    # quick tier: one of them per run (one TLC start), chosen by the seed
+            got = validate(ck, [good, h, good], count=False)
+            if got != 1:
+                raise vf.Infra("trace validator control %d: expected rejection of history 1, got %s" % (j, got))
+
+
 def _overlap(h):
     depth = 0
     for e in sorted(h["events"], key=lambda e: e["seq"]):
@@ -272,4 +300,4 @@ def _race(ck):
         where = sorted(set(re.findall(r"\n\s+(go\.miragespace\.co/specter/[\w/.()*]+)\(\)", err)))[:8]
         ck.notes.append("race detector (auxiliary): %d reports, e.g. in %s" % (n, ", ".join(where)))
     else:
-        ck.notes.append("race detector (auxiliary): no report in 600 barrier rounds per backend")
+        ck.notes.append("race detector (auxiliary): no report in a short run of the barrier rounds on every backend")
